@@ -200,8 +200,30 @@ theorem commitMS_eq {a a1 : App} (hS : a.commitStores = .ok a1) (hc : a1.cfg.col
   rw [hS]
   simp only [App.emit, hc, ↓reduceIte, App.phys, metaOps, App.nextVersion]
 
+/-- the state `MultiWrite` leaves (collected mode, empty collector before). -/
+def App.mw (a : App) (c : Cache) (height : Nat) : App :=
+  { a with main := a.main.flush c.m, aux := a.aux.map (fun x => Tree.flush x c.a),
+           deliver := none, coll := flushBase (c.b.put hdrKey (some (hdrVal height))) }
+
+/-- the root deletes of the main store's commit. -/
+def App.dM (a : App) (c : Cache) (height : Nat) : List WOp :=
+  Tree.commitDels (a.mw c height) (a.mw c height).main
+
+/-- the state after the main store's commit. -/
+def App.a3 (a : App) (c : Cache) (height : Nat) : App :=
+  { a.mw c height with
+    coll := (a.mw c height).coll ++ ((a.mw c height).main.saveOps ++ a.dM c height)
+    main := (a.mw c height).main.saved }
+
+/-- the root deletes of the aux store's commit. -/
+def App.dX (a : App) (c : Cache) (height : Nat) : List WOp :=
+  match (a.mw c height).aux with
+  | some x => Tree.commitDels (a.a3 c height) x
+  | none => []
+
 theorem App.commit_collected (a : App) (c : Cache) (height : Nat) (h : Inv a) :
     ∃ dM dX,
+      dM = a.dM c height ∧ dX = a.dX c height ∧
       DelsBelow .main a.nextVersion dM ∧ DelsBelow .aux a.nextVersion dX ∧
       let cb := c.b.put hdrKey (some (hdrVal height))
       let M := a.main.flush c.m
@@ -243,11 +265,14 @@ theorem App.commit_collected (a : App) (c : Cache) (height : Nat) (h : Inv a) :
     · intro v hv
       rw [e_db] at hv
       exact Nat.lt_of_le_of_lt (h.main.rootsLe v hv) a.lt_nextVersion
-  obtain ⟨dM, hdM, hM⟩ := Tree.commit_collected a2 a2.main hc2 hnoneM
+  obtain ⟨dM, hdMe, hdM, hM⟩ := Tree.commit_collected a2 a2.main hc2 hnoneM
   rw [e_main, hMn, h.main.name, hMw] at hdM
+  have hdMe' : dM = a.dM c height := by
+    rw [hdMe, ← ha2d]; rfl
   cases hax : a.aux with
   | none =>
-    refine ⟨dM, [], hdM, ?_, ?_⟩
+    refine ⟨dM, [], hdMe', ?_, hdM, ?_, ?_⟩
+    · simp [App.dX, App.mw, hax]
     · intro op hop; cases hop
     simp only [Option.map_none]
     have hS := commitStores_eq_none hM (by simp [e_aux, hax])
@@ -284,9 +309,13 @@ theorem App.commit_collected (a : App) (c : Cache) (height : Nat) (h : Inv a) :
       · intro v hv
         rw [f_db, e_db] at hv
         exact Nat.lt_of_le_of_lt (hX.rootsLe v hv) a.lt_nextVersion
-    obtain ⟨dX, hdX, hXc⟩ := Tree.commit_collected a3 (x.flush c.a) hc3 hnoneX
+    obtain ⟨dX, hdXe, hdX, hXc⟩ := Tree.commit_collected a3 (x.flush c.a) hc3 hnoneX
     rw [hXn, hX.name, hXw] at hdX
-    refine ⟨dM, dX, hdM, hdX, ?_⟩
+    have hdXe' : dX = a.dX c height := by
+      rw [hdXe, ← ha3d, hdMe, ← ha2d]
+      simp only [App.dX, App.mw, hax, Option.map_some]
+      rfl
+    refine ⟨dM, dX, hdMe', hdXe', hdM, hdX, ?_⟩
     simp only [Option.map_some]
     have hXc' := hXc
     rw [← ha3d] at hXc'
